@@ -769,7 +769,7 @@ func (s *Serializer) decBlock(br *bytes.Buffer, dst []byte, wg *sync.WaitGroup, 
 		go func() {
 			defer wg.Done()
 			want := len(dst)
-			dst, err = zDec.DecodeAll(compressed, dst[:0])
+			dst, err = zDec.DecodeAll(compressed, dst[:0:len(dst)])
 			if err == nil && want != len(dst) {
 				err = errors.New("zstd decompressed size mismatch")
 			}
@@ -808,7 +808,9 @@ var s2Readers = sync.Pool{New: func() interface{} {
 var initSerializerOnce sync.Once
 
 func initSerializer() {
-	zDec, _ = zstd.NewReader(nil)
+	// Every block is decoded into a destination of known size: never let the
+	// frame header of (possibly corrupt) input decide how much to allocate.
+	zDec, _ = zstd.NewReader(nil, zstd.WithDecodeAllCapLimit(true))
 }
 
 type encodedResult func() ([]byte, error)
